@@ -13,6 +13,7 @@ NOT_DECIDED = ("equality of the decoded values with the original, byte-for-byte 
 RULES = {
     "C01.R1": lambda ctx: decoderrules.field_coverage(ctx, "C01.R1"),
     "C01.R2": lambda ctx: decoderrules.handover(ctx, "C01.R2"),
+    "C01.R2e": lambda ctx: encrules.optional_keys(ctx, "C01.R2e"),
     "C01.R3e": lambda ctx: encrules.resets(ctx, "C01.R3e"),
     "C01.R3d": lambda ctx: decoderrules.accumulators(ctx, "C01.R3d"),
     "C01.R4e": lambda ctx: encrules.field_order(ctx, "C01.R4e"),
